@@ -80,6 +80,54 @@ func genHistPlan(rt *rapid.T) *histPlan {
 	return p
 }
 
+// describe renders a plan compactly for failure messages (the rapid .fail file reproduces it exactly).
+func (p *histPlan) describe() string {
+	var b strings.Builder
+	fmt.Fprintf(&b, "cacheSize=%d names=%d", p.CacheSize, p.Names)
+	for i := range p.Steps {
+		s := &p.Steps[i]
+		fmt.Fprintf(&b, "\n  step %d: name=n%d api=%d adv=%+v upstream(%s):", i, s.Name, s.API, s.Adv, s.Pattern)
+		for ci := range s.Script.Conns {
+			b.WriteString(" " + s.Script.Conns[ci].describe())
+		}
+	}
+	return b.String()
+}
+
+func (cs *connScript) describe() string {
+	if cs.DialErr {
+		return "[dial-error]"
+	}
+	var b strings.Builder
+	b.WriteString("[")
+	for i := range cs.Items {
+		it := &cs.Items[i]
+		if i > 0 {
+			b.WriteString(", ")
+		}
+		fmt.Fprintf(&b, "%s/%d", it.Kind, it.Fam)
+		if it.Kind == kResp {
+			fmt.Fprintf(&b, ":%s rcode=%d", respKindNames[it.RK], it.Msg.RCode)
+		}
+		if len(it.Msg.Answers) > 0 && it.Kind != kSilence && it.Kind != kZeroLen && it.Kind != kShort && it.Kind != kGarbage {
+			b.WriteString(" an=")
+			for _, r := range it.Msg.Answers {
+				fmt.Fprintf(&b, "(t%d ttl=%d %v)", r.Type, r.TTL, r.Addr)
+			}
+		}
+		for _, r := range it.Msg.Authority {
+			if it.Kind == kResp {
+				fmt.Fprintf(&b, " ns=(t%d ttl=%d min=%d)", r.Type, r.TTL, r.SOAMin)
+			}
+		}
+		if it.DelayMs > 0 {
+			fmt.Fprintf(&b, " delay=%dms", it.DelayMs)
+		}
+	}
+	b.WriteString("]")
+	return b.String()
+}
+
 func nameOf(i int) string { return fmt.Sprintf("n%d.verif.test", i) }
 
 type histStats struct {
@@ -88,6 +136,7 @@ type histStats struct {
 	crossed   bool
 	failThenOK bool
 	hits, misses, fails, stales, evictions int
+	openEntries, exactEntries              int // stored answers with several admissible expiry instants / exactly one (or none)
 }
 
 func (h *histStats) label(l string) { h.labels[l] = true }
@@ -279,6 +328,14 @@ func runHistory(t *testing.T, p *histPlan) (viol string, st *histStats) {
 					}
 					if len(ne.members) > 1 {
 						st.label("expiry-choice-open")
+						st.openEntries++
+					} else {
+						st.exactEntries++
+					}
+					for _, m := range ne.members {
+						if m.tag == "ttl-msb-as-zero" {
+							st.label("ttl-top-bit-set")
+						}
 					}
 					if len(ne.crossA)+len(ne.crossAAAA) > 0 {
 						st.label("cross-family-rr")
@@ -374,8 +431,7 @@ func TestResolverHistories(t *testing.T) {
 				recHist.KnownHit(sig)
 				return
 			}
-			b, _ := json.Marshal(p)
-			rt.Fatalf("%s\nplan=%s", viol, b)
+			rt.Fatalf("%s\nplan: %s", viol, p.describe())
 		}
 		labels := make([]string, 0, len(st.labels))
 		for l := range st.labels {
@@ -384,6 +440,12 @@ func TestResolverHistories(t *testing.T) {
 		nt := st.crossed && st.failThenOK
 		key := fmt.Sprintf("c%d|n%d|%s", p.CacheSize, p.Names, st.classes.String())
 		recHist.Case(key, nt, labels...)
+		recHist.Label("n-lookups-cache-hit", int64(st.hits))
+		recHist.Label("n-lookups-refreshed", int64(st.misses))
+		recHist.Label("n-lookups-failed", int64(st.fails))
+		recHist.Label("n-lookups-stale", int64(st.stales))
+		recHist.Label("n-entries-expiry-exact", int64(st.exactEntries))
+		recHist.Label("n-entries-expiry-open", int64(st.openEntries))
 		if nt {
 			recHist.Sample(map[string]any{"cacheSize": p.CacheSize, "names": p.Names, "steps(name,class)": st.classes.String(),
 				"hits": st.hits, "refreshes": st.misses, "failures": st.fails, "stale": st.stales, "evictions": st.evictions})
